@@ -30,6 +30,29 @@ macro("FINV", ["c"],
       "   and fprog(c, s).shard.shard_info is not fprog(c, t).shard.shard_info"
       "   and fprog(c, s).shard._shard_writer is not fprog(c, t).shard._shard_writer), s='U', t='U')")
 
+# FINV(c) as separate clauses (same conjunction; one verification condition per
+# clause keeps every solver query small and its verdict stable under load)
+def FINV_PARTS(c):
+    P = lambda body: "forall(lambda s: implies(s in %s._current_shards_progress, %s), s='U')" % (c, body.replace("C_", c))
+    return [
+        "%s._examples_per_shard >= 1 and SAFE(%s._relative_path_from_split)" % (c, c),
+        "CTX_LISTS_OK(%s)" % c,
+        "DISK_OK(%s._dataset_root_path)" % c,
+        P("fprog(C_, s).written_examples >= 0 and fprog(C_, s).written_examples == fprog(C_, s).shard.shard_info.number_of_examples"
+          " and fprog(C_, s).written_examples <= C_._examples_per_shard"),
+        P("fprog(C_, s).shard._shard_writer is not None and fprog(C_, s).shard._shard_writer.nrec == fprog(C_, s).written_examples"
+          " and not fprog(C_, s).shard._shard_writer.closed"),
+        P("SHARD_OK(fprog(C_, s).shard) and fprog(C_, s).shard._dataset_path == C_._dataset_root_path and not isdisk(fprog(C_, s).shard.shard_info)"),
+        P("NOT_ON_DISK(C_._dataset_root_path, fprog(C_, s).shard.shard_info)"),
+        P("forall(lambda t, i: implies(t in C_._shards_lists and 0 <= i and i < len(C_._shards_lists[t].shard_files),"
+          " C_._shards_lists[t].shard_files[i] is not fprog(C_, s).shard.shard_info), t='U')"),
+        P("implies(fprog(C_, s).written_examples == 0, not truthy(fprog(C_, s).shard.shard_info.custom_metadata))"),
+        "forall(lambda s, t: implies(s in %s._current_shards_progress and t in %s._current_shards_progress and s != t,"
+        "   fprog(%s, s) is not fprog(%s, t) and fprog(%s, s).shard is not fprog(%s, t).shard"
+        "   and fprog(%s, s).shard.shard_info is not fprog(%s, t).shard.shard_info"
+        "   and fprog(%s, s).shard._shard_writer is not fprog(%s, t).shard._shard_writer), s='U', t='U')" % ((c,) * 10),
+    ]
+
 # ---- Shard ------------------------------------------------------------------
 contract(MS_, "Shard.write", props=["C10", "C18", "C04"],
     params={"values": "U"},
@@ -81,8 +104,7 @@ contract(MF, CTX + ".write_example", props=["C10", "C11", "C18", "C04"],
                 "     and custom_metadata != shard.shard_info.custom_metadata)"),
         ("C10", "shard.shard_info.number_of_examples <= self._examples_per_shard"),
     ]},
-    ensures=[
-        "FINV(self)",
+    ensures=FINV_PARTS("self") + [
         "split in self._current_shards_progress",
         ("C10", "fprog(self, split).written_examples >= 1"),
         # C04/C18: exactly one more record in the open shard of `split`
@@ -104,7 +126,8 @@ contract(MF, CTX + ".write_example", props=["C10", "C11", "C18", "C04"],
     ],
     raises={"Exception": [
         # C18: a rejected write (the shard of `split` is still open) leaves the context consistent, counts unchanged
-        ("C18", "implies(split in self._current_shards_progress and fprog(self, split).shard._shard_writer is not None, FINV(self))"),
+    ] + [("C18", "implies(split in self._current_shards_progress and fprog(self, split).shard._shard_writer is not None, %s)" % q)
+         for q in FINV_PARTS("self")] + [
         ("C18", "implies(old(split in self._current_shards_progress) and fprog(self, split).shard is old(fprog(self, split).shard)"
                 "        and fprog(self, split).shard._shard_writer is not None,"
                 "   fprog(self, split).written_examples == old(fprog(self, split).written_examples)"
